@@ -218,5 +218,14 @@ def core_tail_kripke(rnd, atoms=('p', 'q')):
             R.add((t, rnd.randrange(nc)))
             if rnd.random() < 0.4:
                 R.add((t, t))
+    if rnd.random() < 0.4:
+        # an upstream non-fair component of 2-3 states (a plain cycle, no self-loops) with ONE exit into the core,
+        # leaving from a randomly chosen member: its states have a fair path only through that exit
+        k = rnd.choice([2, 2, 3])
+        up = list(range(n, n + k))
+        for i in range(k):
+            R.add((up[i], up[(i + 1) % k]))
+        R.add((rnd.choice(up), rnd.randrange(nc)))
+        n += k
     L = [sorted(x for x in atoms if rnd.random() < 0.5) for _ in range(n)]
     return {'n': n, 'R': [list(e) for e in sorted(R)], 'L': L}, nc
